@@ -179,12 +179,15 @@ ADDED = {
     'C06': ' Also: operators the lifter builds with operands of different widths and evaluable operands are exempt from the operand-type check (op_size_no_check names only real operators); '
            'width-indexed tables cover every constant width; no sign test on an unsigned operand; the through-carry rotations widen their operand before shifting; left shifts bound the count; '
            'eval_ExprCompose recognises constant slice pieces (widths the lifter composes that no ExprInt can carry); memory cells are stored under the simplified address they are looked up with (D7); the division / multiplication evaluators (div, rem, idiv, irem, umul/imul hi/lo of widths 8/16/32) '
-           'are executed from their source on boundary vectors and agree with the integer definitions, divide-error conditions included (D5).',
+           'are executed from their source on boundary vectors and agree with the integer definitions, divide-error conditions included (D5). '
+           'D9: addresses are widened to 32 bits where they enter the memory model (16-bit effective addresses).',
     'C07': ' Also (D5/D7): every exit of the rep loop is count==0 or the zf test, a symbolic zf is rejected; a value (pool content, evaluation result, stored address) is never passed to '
            'eval_expr again (source-order taint with parameters propagated through the self-call graph). '
-           'D9: eval_ExprCompose folds constant pieces around a conditional piece to their concatenation (evaluated on 7 layouts).',
+           'D9: eval_ExprCompose folds constant pieces around a conditional piece to their concatenation (evaluated on 7 layouts). '
+           'D10: the same address-width clause (instructions under the 16-bit address size can be emulated).',
     'C08': ' Also (D4): lds/les/lss read the selector operand-size/8 bytes after the offset. '
-           'D6: the cells push/pop through esp read and write (shared with C04.D9).',
+           'D6: the cells push/pop through esp read and write (shared with C04.D9). '
+           'D7: a rep-prefixed string instruction lifts with its count register, under the predicate the emulator repeats by; the reference lists 70 x87 lines (pop/push renaming), the far call and cmpxchg8b.',
     'C09': ' Also (D6): a string instruction whose Intel name is an SSE mnemonic (movsd/cmpsd) is not rendered under that name in AT&T syntax. D8: operand order (reversed except bound/enter) '
            'agrees between the AT&T branch of __str__ and mnemo_from_att, both evaluated; D9: memory forms rendered under a suffix-less AT&T mnemonic pass the size check of their row after '
            'mnemo_from_att, normalize_args and the operand completion of asm_candidates (all evaluated). '
@@ -196,8 +199,10 @@ ADDED = {
            'D7: arg_set_numpy_imm is evaluated on every pair of operand-size tokens (no TypeError/KeyError); D8: dict_mul, evaluated on register x constant and on chains of factors, builds no value whose size grows with the constant.',
     'C12': ' Also (D2/D6): every method of the evaluator class counts as an entry point whose defaults callers omit (dict-dispatch callees resolved); sys.path / sys.modules replaced inside a '
            'function are restored in a finally. '
-           'D7: no function in the API modules mutates in place a module-level table, or a local bound to one (a lifter reversing the shared register list).',
-    'C13': ' Also (D6): visit() of every expression class rebuilds the node when any child changed, segment selector of ExprMem included (shared with C15.D2).',
+           'D7: no function in the API modules mutates in place a module-level table, or a local bound to one (a lifter reversing the shared register list). '
+           'D8: process-wide loggers are configured once; D9: state a token rule keeps on a shared lexer is reset per parse.',
+    'C13': ' Also (D6): visit() of every expression class rebuilds the node when any child changed, segment selector of ExprMem included (shared with C15.D2). '
+           'D7: constants have one (unsigned) representation wherever they stand.',
     'C14': ' The template family includes the bounded left shift (count >= width of the result class gives 0; a bound taken from a narrower class is a violation) and the modular power '
            'pow(self.arg, e, limit) with the wider-class cast; the exact power / unbounded shift are violations (the count 2^n-1 is in range). '
            'The right shift returns 0 for a count >= width only for the unsigned classes (an arithmetic shift of a negative value saturates at -1).',
